@@ -224,6 +224,8 @@ def prepare_states(tasks, chk):
         expect = 1 if argv[1] == "//:bad" else 0
         if res.code != expect:
             raise RuntimeError("state preparation: cond %s exited %d: %s" % (" ".join(argv), res.code, res.err[-400:]))
+    # the same archive under a name containing ':' (tar takes a RELATIVE name `host:file` for a remote archive; D28)
+    shutil.copy(os.path.join(s2, "arch.tar.gz"), os.path.join(s2, "ar:ch.tar.gz"))
     states["S2"] = s2
     s3 = fresh("S3", s2)
     res = rc(["clean", "-f"], s3, ".", tr, chk=chk)
@@ -318,6 +320,7 @@ def commands_for(state, tasks, root):
         add("archive -o relfile", lambda cwd: ["archive", "-l", "-o", rel("docs/new.tar.gz")(cwd)])
         add("archive -o existing", lambda cwd: ["archive", "-o", rel("arch.tar.gz")(cwd)])
         add("archive -o missing parent", lambda cwd: ["archive", "-o", rel("nodir/x.tar.gz")(cwd)])
+        add("archive -o relfile with colon", lambda cwd: ["archive", "-l", "-o", rel("docs/res:v1.tar.gz")(cwd)])
         add("restore duplicate", lambda cwd: ["restore", rel("arch.tar.gz")(cwd)])
         add("restore missing file", lambda cwd: ["restore", rel("none.tar.gz")(cwd)])
         add("clean -f", fixed("clean", "-f"))
@@ -327,6 +330,7 @@ def commands_for(state, tasks, root):
     elif state == "S3":
         add("restore abs", lambda cwd: ["restore", os.path.join(root, "arch.tar.gz")])
         add("restore rel", lambda cwd: ["restore", rel("arch.tar.gz")(cwd)])
+        add("restore rel with colon", lambda cwd: ["restore", rel("ar:ch.tar.gz")(cwd)])
         add("run all", fixed("run", "//:all"))
         add("where exp (none)", fixed("where", exps[0].id))
         add("gc -n", fixed("gc", "-n"))
